@@ -209,6 +209,7 @@ class ModuleInliner:
         self.known = known
         self.helpers: Dict[Tuple[Optional[str], str], _Helper] = {}
         self.imported: Dict[str, _Helper] = {}  # local alias -> helper defined in another module of the package
+        self.foreign_bases: Dict[str, Tuple["ModuleInliner", str]] = {}  # local alias of a class imported from a sibling module -> (its inliner, its name)
         self.constants: Dict[str, ast.AST] = {}  # unknown module-level literal constants (own and imported aliases)
         self.tmp = 0
         self.log: List[str] = []
@@ -242,8 +243,9 @@ class ModuleInliner:
             return self.helpers[(None, f.id)], None
         if isinstance(f, ast.Name) and f.id in self.imported:
             return self.imported[f.id], None
-        if isinstance(f, ast.Attribute) and cls is not None and (cls, f.attr) in self.helpers:
-            h = self.helpers[(cls, f.attr)]
+        owner = self._owner_of(cls, f.attr) if isinstance(f, ast.Attribute) and cls is not None else None
+        if owner is not None:
+            h = owner[0].helpers[(owner[1], f.attr)]
             if isinstance(f.value, ast.Name) and f.value.id in (self_name, cls, "cls"):
                 if h.kind == "static":
                     return h, None
@@ -255,6 +257,37 @@ class ModuleInliner:
                 return h, f.value
             elif isinstance(f.value, ast.Name) and h.kind == "static":
                 return h, None
+        return None
+
+    def _owner_of(self, cls: str, name: str):
+        """The class of this module, `cls` or one of its bases (first in left-to-right depth-first order), that defines the unknown
+        helper method `name`; None when a class on the way defines a *known* method of that name (an override the rules know)."""
+        bases: Dict[str, List[str]] = {}
+        defined: Dict[str, Set[str]] = {}
+        for st in self.tree.body:
+            if isinstance(st, ast.ClassDef):
+                bases[st.name] = [b.id for b in st.bases if isinstance(b, ast.Name)]
+                defined[st.name] = {m.name for m in st.body if isinstance(m, FuncNode)}
+        seen: Set[str] = set()
+        todo = [cls]
+        while todo:
+            c = todo.pop(0)
+            if c in seen:
+                continue
+            seen.add(c)
+            if c not in bases:
+                # a base class imported from a sibling module of the package: continue the search there
+                fb = self.foreign_bases.get(c)
+                if fb is not None:
+                    r = fb[0]._owner_of(fb[1], name)
+                    if r is not None:
+                        return r
+                continue
+            if (c, name) in self.helpers:
+                return (self, c)
+            if name in defined.get(c, ()):
+                return None
+            todo = bases[c] + todo
         return None
 
     # ------------------------------------------------------------------ binding
@@ -845,6 +878,8 @@ def inline_package(trees: Dict[str, ast.Module], packages: Dict[str, bool], know
                     alias = a.asname or a.name
                     if (None, a.name) in src.helpers:
                         mi.imported[alias] = src.helpers[(None, a.name)]
+                    if any(isinstance(x, ast.ClassDef) and x.name == a.name for x in src.tree.body):
+                        mi.foreign_bases[alias] = (src, a.name)
                     if a.name in consts.get(base, {}):
                         mi.constants[alias] = consts[base][a.name]
     for mod in trees:
